@@ -221,3 +221,48 @@ package keeper
 //@                        && get(bindings, serviceName, providers[0]).ServiceName == serviceName
 //@                        ==> (forall d:Str :: amt(total, d) == FEE(consumer, serviceName, providers[0], d))
 //@ end
+
+// ---------------------------------------------------------------------------------------------
+// Binding deposits (C07): the deposit escrow moves by exactly what the binding records
+
+// pricing string -> Pricing (JSON, denomination check against the base denom), minimum deposit and deposit shape:
+// assumed contracts (pure reads of parameters)
+//@ func Keeper.ParsePricing
+//@   property C07
+//@   trusted
+//@   returns p, err
+//@ end
+//@ func Keeper.GetMinDeposit
+//@   property C07
+//@   trusted
+//@   returns min, err
+//@ end
+//@ func Keeper.validateDeposit
+//@   property C07
+//@   trusted
+//@   returns err
+//@   ensures shape: err == nil ==> (forall d:Str :: amt(deposit, d) >= 0)
+//@ end
+
+//@ define BIND(svc, p) = get(bindings, svc, p)
+
+// UpdateServiceBinding: only the binding's owner; the added deposit is recorded on the binding and moved from the owner
+// to the deposit escrow, whether or not the binding is currently available.
+//@ func Keeper.UpdateServiceBinding
+//@   property C07
+//@   returns err
+//@   requires has(prm)
+//@   requires owner != DEP
+//@   requires forall d:Str :: amt(deposit, d) >= 0
+//@   requires has(bindings, serviceName, provider) ==> BIND(serviceName, provider).ServiceName == serviceName && BIND(serviceName, provider).Provider == bech(provider) && bechok(bech(provider))
+//@   let b0 = BIND(serviceName, provider)
+//@   modifies bal, bindings, pricings
+//@   ensures authority: err == nil ==> old(has(bindings, serviceName, provider)) && owner == addr(b0.Owner)
+//@   ensures recorded:  err == nil ==> has(bindings, serviceName, provider)
+//@                        && (forall d:Str :: amt(BIND(serviceName, provider).Deposit, d) == amt(b0.Deposit, d) + amt(deposit, d))
+//@                        && BIND(serviceName, provider).Owner == b0.Owner && BIND(serviceName, provider).Provider == b0.Provider
+//@                        && BIND(serviceName, provider).Available == b0.Available && BIND(serviceName, provider).ServiceName == b0.ServiceName
+//@   ensures escrowed:  err == nil ==> (forall d:Str :: bal(DEP, d) == old(bal(DEP, d)) + amt(deposit, d) && bal(owner, d) == old(bal(owner, d)) - amt(deposit, d))
+//@   ensures ledger_frame: forall a:Bytes :: forall d:Str :: a != DEP && a != owner ==> bal(a, d) == old(bal(a, d))
+//@   ensures others:    forall s:Str :: forall p:Bytes :: (s != serviceName || p != provider) ==> has(bindings, s, p) == old(has(bindings, s, p)) && BIND(s, p) == old(BIND(s, p))
+//@ end
